@@ -23,8 +23,12 @@ vars == <<tid, l, t, bad>>
 
 Has(r, f) == f \in DOMAIN r
 
+(* operations specified by a relation instead of a function *)
+Relational == {"optimize_width", "csv"}
+
 Step(ev, cur) ==
-    IF ev.kind = "row" THEN ApplyRow(cur, ev.op) ELSE Apply(cur, ev.op)
+    IF ev.kind = "row" THEN ApplyRow(cur, ev.op)
+    ELSE IF ev.op.op \in Relational THEN cur ELSE Apply(cur, ev.op)
 
 (* the reads logged for this event that disagree with the model's answers *)
 ReadDiffs(tag, got, want) ==
@@ -33,9 +37,16 @@ ReadDiffs(tag, got, want) ==
                    [] OTHER          -> want[k]
         IN got[k] # w}}
 
+StepOK(ev, cur, next) ==
+    CASE ev.op.op = "optimize_width" ->
+            /\ OptimizeWidthOK(cur, ev.post)
+            /\ (Has(ev.op, "again") => ev.post = cur)          \* idempotent
+      [] ev.op.op = "csv" -> Has(ev, "values") /\ ev.values = CsvRows(cur) /\ ev.post = cur
+      [] OTHER -> ev.post = next
+
 Verdict(ev, next) ==
     (IF Has(ev, "exc") THEN {<<"exc", ev.exc>>} ELSE {})
-    \cup (IF ev.post # next THEN {<<"xml", "post">>} ELSE {})
+    \cup (IF ~StepOK(ev, t, next) THEN {<<"xml", "post">>} ELSE {})
     \cup (IF Has(ev, "bad") /\ ev.bad # <<>> THEN {<<"struct", ev.bad[1]>>} ELSE {})
     \cup (IF ev.kind = "table" /\ ~WellFormed(ev.post) THEN {<<"struct", "row-wider-than-columns">>} ELSE {})
     \cup (IF ev.kind = "table" /\ Has(ev, "live") THEN ReadDiffs("live", ev.live, Reads(ev.post)) ELSE {})
